@@ -79,6 +79,7 @@ def _intlike(t):
 
 def analyse(cfg, body, policy=None, args=(), eng=None):
     eng = eng or cfg.eng
+    nf.Norm.eng = eng
     an = terms.Analysis(eng, policy or SeqPolicy())
     raw = an.run(body, list(args))
     out = [NPath(p, nf.Norm(env=getattr(p, "env", None))) for p in raw]
